@@ -779,6 +779,10 @@ def main(report, tier, seed, workers, calibrate=False):
         st = res['stats']
         solver.STATS.queries += st['queries']
         solver.STATS.seconds += st['solver_seconds']
+        for k_, v_ in st.get('by_verdict', {}).items():
+            solver.STATS.by_verdict[k_] = solver.STATS.by_verdict.get(k_, 0) + v_
+        for k_, v_ in st.get('by_backend', {}).items():
+            solver.STATS.by_backend[k_] = solver.STATS.by_backend.get(k_, 0) + v_
         if res['error']:
             report.harness_errors.append(f"{res['module']}: {res['error'][-300:]}")
             continue
